@@ -45,6 +45,7 @@ type op struct {
 type res struct {
 	I, A, S string
 	M       string // model of the standard-library namesake (third driver column), "-" if none
+	G       string // the regenerated go/ssa form of the repository's function run by the Lean interpreter (fourth column), "-" if none
 }
 
 var cpuWas map[string]bool
@@ -120,6 +121,10 @@ func runShard(ops []op, out []res, hangAt *atomic.Int64, base int) error {
 		out[n].A, out[n].S, out[n].M = line[:k], line[k+1:], "-"
 		if k2 := strings.IndexByte(out[n].S, '\t'); k2 >= 0 {
 			out[n].S, out[n].M = out[n].S[:k2], out[n].S[k2+1:]
+		}
+		out[n].G = "-"
+		if k3 := strings.IndexByte(out[n].M, '\t'); k3 >= 0 {
+			out[n].M, out[n].G = out[n].M[:k3], out[n].M[k3+1:]
 		}
 		n++
 	}
@@ -274,6 +279,10 @@ wait:
 		}
 		if !*flagNoA && r.A != "-" && r.A != r.I {
 			viols = append(viols, violation{Kind: "I!=A", Op: o.Line(), I: r.I, A: r.A, S: r.S, Fam: o.Fam})
+		}
+		// the regenerated source-level model (go/ssa form of the repository's own function, run by the Lean interpreter)
+		if !*flagNoA && r.G != "-" && r.G != "" && r.G != r.I {
+			viols = append(viols, violation{Kind: "I!=G", Op: o.Line(), I: r.I, A: r.A, S: r.S, Note: "source-model=" + r.G, Fam: o.Fam})
 		}
 		// the Lean model of the standard-library namesake against the real standard library
 		if !*flagNoA && o.StdRaw != "" && r.M != "-" && r.M != "" && r.M != o.StdRaw {
@@ -673,7 +682,7 @@ func report(viols []violation, ops []op, results []res, start time.Time, scale i
 	for _, w := range viols[:min(len(viols), 5)] {
 		fmt.Printf("DISAGREEMENT kind=%s op=%q I=%s A=%s S=%s std=%s %s\n", w.Kind, w.Op, w.I, w.A, w.S, w.Std, w.Note)
 	}
-	if v.Kind == "I!=A" || v.Kind == "std!=M" {
+	if v.Kind == "I!=A" || v.Kind == "std!=M" || v.Kind == "I!=G" {
 		fmt.Printf("CORRESPONDENCE-BROKEN property=%s replay=%s\n", *flagProp, path)
 		os.Exit(3)
 	}
@@ -682,7 +691,7 @@ func report(viols []violation, ops []op, results []res, start time.Time, scale i
 }
 
 func rank(k string) int {
-	if k == "I!=A" || k == "std!=M" {
+	if k == "I!=A" || k == "std!=M" || k == "I!=G" {
 		return 1
 	}
 	return 0
